@@ -46,7 +46,7 @@ R_KEYS = ['J/mol/K', 'kJ/mol/K', 'L kPa/mol/K', 'cm3 kPa/mol/K', 'm3 Pa/mol/K', 
 H_KEYS = ['J s', 'kJ s', 'eV s', 'Eh s', 'Ha s']
 KB_KEYS = ['J/K', 'kJ/K', 'eV/K', 'cal/K', 'kcal/K', 'Eh/K', 'Ha/K']
 C_KEYS = ['m/s', 'cm/s']
-FIXED_NUMS = [1.0, 3.7e-9, 2.5e6]
+FIXED_NUMS = [1.0, 3.7e-9, 2.5e6, 0.0, -4.2]
 FIXED_TEMPS = [0.0, -40.0, 298.15, 5000.0]
 
 
@@ -92,7 +92,9 @@ def generate(rng, tier):
         if t == 'temp':
             nums = [float('%.6g' % rng.uniform(-400, 6000)) for _ in range(3)]
         else:
-            nums = [_num(rng) for _ in range(3)]
+            nums = [_num(rng) * rng.choice([1, 1, 1, -1]) for _ in range(3)]
+            if rng.random() < 0.2:
+                nums[0] = 0.0
         return {'kind': 'algebra', 'type': t, 'units': us, 'nums': nums}
     if k == 'spectro':
         return {'kind': 'spectro', 'vals': [_num(rng) for _ in range(3)]}
@@ -154,6 +156,9 @@ def _algebra(spec, ctx):
                 # affine: independent reference through kelvin
                 ctx.close('T5', y, U.from_kelvin(U.to_kelvin(x, u), v), 1e-12, {'unit': u, 'to': v},
                           scale=max(1.0, abs(x), abs(y), 500.0), x=x)
+            elif x == 0:
+                # proportional: zero converts to zero (and back)
+                ctx.check('T2', y == 0 and back == 0, dict(m, what='proportional_zero'), x=x, y=y, back=back)
             else:
                 ctx.close('T2', back / x, 1.0, 1e-12, m, x=x, y=y)
                 # proportional: conversion of x equals x times the conversion factor
@@ -169,6 +174,9 @@ def _algebra(spec, ctx):
             z = _conv(ctx, 'T3', m, y, v, w)
             d = _conv(ctx, 'T3', m, x, u, w)
             if z is core.NOVALUE or d is core.NOVALUE:
+                continue
+            if t != 'temp' and x == 0:
+                ctx.check('T3', z == 0 and d == 0, dict(m, what='zero'), z=z, d=d)
                 continue
             if t == 'temp':
                 ctx.close('T3', z, d, 1e-12, m, scale=max(1.0, abs(z), abs(d), abs(x), 500.0), x=x)
